@@ -19,6 +19,29 @@ import numpy as np
 from .common import frac, plist
 
 OPS = '+-*/'
+# literals merely *close* to the values fold_constants treats specially (0, 1, -1), the exact ones, and ordinary ones
+NEAR_SPECIAL = [1e-9, -1e-9, 8.854e-12, -8.854e-12, 1e-20, -1e-20, 1 + 1e-6, 1 - 1e-6, -1 + 1e-6, -1 - 1e-6,
+                1 + 1e-12, 1 - 1e-12, -1 + 1e-12, -1 - 1e-12, 5e-324, -5e-324, 1e-15, 1 + 2.0 ** -52]
+SPECIALS = NEAR_SPECIAL + [0.0, 1.0, -1.0, 2.0, 0.5, -3.0]
+# for random pools: no denormals (products of constants would underflow in float, which the exact model/oracle do not mimic)
+NEAR_RANDOM = [c for c in NEAR_SPECIAL if abs(c) > 1e-300]
+FOLD_POSITIONS = ['x+c', 'c+x', 'x-c', 'c-x', 'c*x', 'x*c', 'x/c', 'c/x', 'c*u*v', 'c**2*x', '(x*c)*(c+x)']
+
+
+def fold_position(V, pos, c, x):
+    """the expression with literal c in the given position next to the non-constant scalar x"""
+    C = V.as_expr(c)
+    if pos == 'x+c': return x + C
+    if pos == 'c+x': return C + x
+    if pos == 'x-c': return x - C
+    if pos == 'c-x': return C - x
+    if pos == 'c*x': return C * x
+    if pos == 'x*c': return x * C
+    if pos == 'x/c': return x / C
+    if pos == 'c/x': return C / x
+    if pos == 'c*u*v': return C
+    if pos == 'c**2*x': return (C ** 2) * x if abs(c) > 1e-150 or c == 0 else (C ** 1) * x
+    return (x * C) * (C + x)
 FUNCS = ('abs', 'sqrt', 'exp', 'log', 'sin', 'cos', 'tan')
 
 
@@ -570,6 +593,8 @@ class FormGen:
         return int(self.rng.integers(0, n))
 
     def const(self):
+        if self.r(6) == 0:
+            return NEAR_RANDOM[self.r(len(NEAR_RANDOM))]
         return [0.0, 1.0, -1.0, 2.0, 0.5, 3.0, -2.0, 0.25, 4.0, -0.5][self.r(10)]
 
     def dparam(self):
@@ -769,9 +794,27 @@ class FormGen:
         return core * self.scalar(depth - 1) + self.const() * core
 
 
+def special_form(k):
+    """deterministic corpus part (seed = -1-k): every literal of SPECIALS in every position fold_constants inspects"""
+    from pyiga import vform as V
+    c = SPECIALS[k % len(SPECIALS)]
+    pos = FOLD_POSITIONS[(k // len(SPECIALS)) % len(FOLD_POSITIONS)]
+    dim = 1 + (k % 2)
+    vf = V.VForm(dim)
+    u, v = vf.basisfuns()
+    f = vf.input('f')
+    vf.add(fold_position(V, pos, c, f) * u * v * V.dx)
+    return vf, {'seed': -1 - k, 'dim': dim, 'kind': 'vol', 'arity': 2, 'vec': False, 'literal': repr(c), 'position': pos}
+
+
+N_SPECIAL_FORMS = len(SPECIALS) * len(FOLD_POSITIONS)
+
+
 def build_form(seed, small=False):
     """-> (vf, desc) or (None, error kind)"""
     try:
+        if seed < 0:
+            return special_form(-1 - seed)
         return FormGen(seed, small).build()
     except AssertionError:
         return None, 'AssertionError'
